@@ -17,6 +17,7 @@ import math
 from fractions import Fraction
 
 import numpy as np
+from hypothesis import strategies as st
 
 from vf import tocommon as T
 from vf.runner import PropertyViolation, Sub
@@ -144,10 +145,68 @@ def _strategy():
     return T.to_case(accuracy_bias=True)
 
 
+def check_large_separable(case):
+    """Groups of up to ~2 600 rows with pairwise distinct scores and labels that are a threshold function of the
+    score within each group: the perfect classifier satisfies every label-conditional parity constraint at a
+    grid end point, so the optimum on the grid is exactly 1.0 (analytic oracle, no enumeration needed)."""
+    from fairlearn.postprocessing import ThresholdOptimizer
+
+    from vf.learners import ScoreColumnMulti
+
+    scores, labels, groups = [], [], []
+    for g, (size, cut, lo, step) in enumerate(case["groups"]):
+        for i in range(size):
+            scores.append(lo + step * i)
+            labels.append(1 if i >= cut else 0)
+            groups.append("g%d" % g)
+    n = len(scores)
+    order = np.argsort([(i * case["mult"]) % n for i in range(n)], kind="stable")  # a fixed shuffle
+    X = np.asarray(scores, dtype=float)[order].reshape(-1, 1)
+    y = np.asarray(labels)[order]
+    sf = np.asarray(groups)[order]
+    pm = case["pm"]
+    to = ThresholdOptimizer(estimator=ScoreColumnMulti(primary="predict_proba" if pm == "auto" else pm),
+                            constraints=case["constraint"], objective=case["objective"], grid_size=case["grid"],
+                            flip=case["flip"], prefit=True, predict_method=pm)
+    to.fit(X, y, sensitive_features=sf)
+    p = np.asarray(to._pmf_predict(X, sensitive_features=sf))[:, 1]
+    if case["objective"] == "accuracy_score":
+        got = float(np.where(y == 1, p, 1 - p).mean())
+    else:
+        got = 0.5 * (float(p[y == 1].mean()) + float((1 - p[y == 0]).mean()))
+    if abs(got - 1.0) > 1e-9:
+        raise PropertyViolation(
+            f"separable groups of sizes {[g[0] for g in case['groups']]}: expected {case['objective']} of the fitted rule is "
+            f"{got!r}; the perfect classifier satisfies {case['constraint']} on the grid, so the optimum is 1.0"
+        )
+    tags = ["nt"]
+    if max(g[0] for g in case["groups"]) >= 2000:
+        tags.append("group>=2000_rows")
+    return tags
+
+
+@st.composite
+def _large_cases(draw):
+    k = draw(st.integers(2, 3))
+    groups = []
+    for j in range(k):
+        size = draw(st.sampled_from([2048, 2500, 2600, 40, 300, 1200])) if j else draw(st.sampled_from([2048, 2500, 2600, 3100]))
+        cut = draw(st.integers(1, size - 1))
+        groups.append([size, cut, draw(st.sampled_from([0.0, -1.0, 0.25])), draw(st.sampled_from([1e-3, 1.0 / 4096, 1e-4]))])
+    constraint = draw(st.sampled_from(["equalized_odds", "true_positive_rate_parity", "false_positive_rate_parity",
+                                       "false_negative_rate_parity", "true_negative_rate_parity"]))
+    return {"groups": groups, "constraint": constraint,
+            "objective": draw(st.sampled_from(["accuracy_score", "balanced_accuracy_score"])),
+            "grid": draw(st.sampled_from([1, 10, 1000])), "flip": draw(st.booleans()),
+            "pm": draw(st.sampled_from(["predict", "decision_function", "auto"])), "mult": draw(st.sampled_from([7919, 104729, 1]))}
+
+
 SUBS = [
     Sub("optimum_random", check, strategy=_strategy, quick=1500, thorough=40000, shards=16,
         floors={"nt": 0.198, "beats_constants": 0.234, "hulls_differ": 0.389, "tie_pos_neg": 0.2, "interior_segment": 0.086, "grid_at_vertex": 0.2,
                 "vertical_segment": 0.05, "p_ignore>0": 0.03, "flip_used": 0.03, "equalized_odds": 0.05,
                 "groups>=3": 0.2, "lp_crosscheck": 0.037, "unequal_group_sizes": 0.3,
                 "optimum_inside_grid": 0.09}),
+    Sub("large_separable_groups", check_large_separable, strategy=_large_cases, quick=48, thorough=600, shards=16,
+        shrink_quick=False, floors={"group>=2000_rows": 0.5}),
 ]
